@@ -305,3 +305,138 @@ func TestVerifProbe_QueryExactness(t *testing.T) {
 	run(nil)
 	fmt.Printf("VERIF-CASES=%d\n", cases)
 }
+
+// Wide tables: many objects under few non-unique keys (so that the de-duplication and the
+// filters of the non-unique iterators see long runs), written, modified, queried and written
+// again inside ONE write transaction (a read after a write in the same transaction must see
+// the write - also after Modify, CompareAndSwap and DeleteAll), then replaced and deleted in
+// further transactions of which every second one is aborted first.
+func TestVerifProbe_QueryWide(t *testing.T) {
+	n := 40
+	if os.Getenv("VERIF_TIER") == "thorough" {
+		n = 400
+	}
+	tagShapes := [][]string{{"aa", "ab", "b"}, {"a"}, {"", "b"}, {"ab", "a\x00"}, nil, {"b", "a\x01", "aa"}, {"a", "aa", "ab", "a\x00", "a\x01", "b", ""}}
+	db := New()
+	tbl, err := NewTable(db, "verifqw", verifQID, verifQName, verifQTags)
+	if err != nil {
+		t.Fatalf("NewTable: %v", err)
+	}
+	cases := 0
+	check := func(txn ReadTxn, m verifQModel, where string) {
+		cases++
+		if msg := verifQCheck(tbl, txn, m, where); msg != "" {
+			t.Fatalf("VERIF-FAIL: query-wide: n=%d %s", n, msg)
+		}
+	}
+	mk := func(i, gen int) verifQObj {
+		return verifQObj{ID: uint64(i), Name: fmt.Sprintf("n%04d", i), Tags: tagShapes[(i+gen)%len(tagShapes)]}
+	}
+	every := 1
+	if n > 60 {
+		every = n / 40
+	}
+	m := verifQModel{}
+	w := db.WriteTxn(tbl)
+	for i := 1; i <= n; i++ {
+		o := mk(i, 0)
+		if _, _, err := tbl.Insert(w, o); err != nil {
+			t.Fatalf("VERIF-FAIL: query-wide: Insert(%d): %v", i, err)
+		}
+		m[o.ID] = o
+		if i%every == 0 || i == n {
+			check(w, m, fmt.Sprintf("write txn after %d inserts", i))
+		}
+	}
+	// Modify (existing and new objects), CompareAndSwap, CompareAndDelete: each followed by a read
+	for _, i := range []int{1, n / 2, n, n + 1} {
+		o := mk(i, 3)
+		_, _, err := tbl.Modify(w, o, func(old, new verifQObj) verifQObj {
+			new.Tags = append(append([]string(nil), new.Tags...), "ab")
+			return new
+		})
+		if err != nil {
+			t.Fatalf("VERIF-FAIL: query-wide: Modify(%d): %v", i, err)
+		}
+		if _, had := m[o.ID]; had {
+			o.Tags = append(append([]string(nil), o.Tags...), "ab")
+		}
+		m[o.ID] = o
+		check(w, m, fmt.Sprintf("write txn after Modify(%d)", i))
+	}
+	{
+		_, rev, _ := tbl.Get(w, verifQID.Query(2))
+		o := mk(2, 5)
+		if _, _, err := tbl.CompareAndSwap(w, rev, o); err != nil {
+			t.Fatalf("VERIF-FAIL: query-wide: CompareAndSwap: %v", err)
+		}
+		m[o.ID] = o
+		check(w, m, "write txn after CompareAndSwap(2)")
+		if _, _, err := tbl.CompareAndSwap(w, rev, mk(2, 6)); err == nil {
+			t.Fatalf("VERIF-FAIL: query-wide: stale CompareAndSwap accepted")
+		}
+		check(w, m, "write txn after rejected CompareAndSwap(2)")
+		if _, _, err := tbl.CompareAndSwap(w, rev, mk(n+7, 6)); err == nil {
+			t.Fatalf("VERIF-FAIL: query-wide: CompareAndSwap of an absent object accepted")
+		}
+		check(w, m, "write txn after CompareAndSwap of an absent object")
+		_, rev3, _ := tbl.Get(w, verifQID.Query(3))
+		if _, _, err := tbl.CompareAndDelete(w, rev3+1, mk(3, 0)); err == nil {
+			t.Fatalf("VERIF-FAIL: query-wide: stale CompareAndDelete accepted")
+		}
+		check(w, m, "write txn after rejected CompareAndDelete(3)")
+		if _, _, err := tbl.CompareAndDelete(w, rev3, mk(3, 0)); err != nil {
+			t.Fatalf("VERIF-FAIL: query-wide: CompareAndDelete: %v", err)
+		}
+		delete(m, 3)
+		check(w, m, "write txn after CompareAndDelete(3)")
+	}
+	r := w.Commit()
+	check(r, m, "snapshot from Commit")
+	base := r
+	baseModel := m.clone()
+	// further transactions: replace with other tag shapes, delete, re-insert; odd rounds aborted first
+	for round := 1; round <= 4; round++ {
+		apply := func(w WriteTxn, m verifQModel) {
+			for i := 1; i <= n; i++ {
+				switch (i + round) % 5 {
+				case 0:
+					tbl.Delete(w, mk(i, 0))
+					delete(m, uint64(i))
+				case 1, 2:
+					o := mk(i, round)
+					tbl.Insert(w, o)
+					m[o.ID] = o
+				}
+			}
+		}
+		next := m.clone()
+		w := db.WriteTxn(tbl)
+		apply(w, next)
+		check(w, next, fmt.Sprintf("round %d write txn", round))
+		if round%2 == 1 {
+			w.Abort()
+			check(db.ReadTxn(), m, fmt.Sprintf("round %d snapshot after abort", round))
+			w = db.WriteTxn(tbl)
+			next = m.clone()
+			apply(w, next)
+		}
+		r := w.Commit()
+		m = next
+		check(r, m, fmt.Sprintf("round %d snapshot from Commit", round))
+		check(base, baseModel, fmt.Sprintf("round %d first snapshot re-read", round))
+	}
+	// DeleteAll followed by a read and a write in the same transaction
+	w = db.WriteTxn(tbl)
+	if err := tbl.DeleteAll(w); err != nil {
+		t.Fatalf("VERIF-FAIL: query-wide: DeleteAll: %v", err)
+	}
+	check(w, verifQModel{}, "write txn after DeleteAll")
+	o := mk(1, 1)
+	tbl.Insert(w, o)
+	check(w, verifQModel{1: o}, "write txn after DeleteAll+Insert")
+	w.Abort()
+	check(db.ReadTxn(), m, "snapshot after aborted DeleteAll")
+	check(base, baseModel, "first snapshot at the end")
+	fmt.Printf("VERIF-CASES=%d\n", cases)
+}
